@@ -255,6 +255,22 @@ func writeAttr(b *bolt.Bucket, attr *metadata.Attr) error {
 	return nil
 }
 
+// resetAttr removes everything writeAttr may have stored so that the bucket can be overwritten.
+func resetAttr(b *bolt.Bucket) error {
+	for _, k := range [][]byte{
+		bucketKeySize, bucketKeyModTime, bucketKeyLinkName, bucketKeyMode, bucketKeyUID, bucketKeyGID,
+		bucketKeyDevMajor, bucketKeyDevMinor, bucketKeyXattrKey, bucketKeyXattrValue, bucketKeyNumLink,
+	} {
+		if err := b.Delete(k); err != nil {
+			return err
+		}
+	}
+	if b.Bucket(bucketKeyXattrsExtra) != nil {
+		return b.DeleteBucket(bucketKeyXattrsExtra)
+	}
+	return nil
+}
+
 func readAttr(b *bolt.Bucket, attr *metadata.Attr) error {
 	return b.ForEach(func(k, v []byte) error {
 		switch string(k) {
